@@ -343,10 +343,18 @@ func (self *Core) runInstruction(instruction compiler.Instruction) *value.VmInte
 		}
 	case compiler.Opcode_Pow:
 		// TODO: improve performance here
-		r := (*self.pop()).(value.ValueInt).Inner
-		l := (*self.pop()).(value.ValueInt).Inner
-		res := math.Pow(float64(l), float64(r))
-		self.push(value.NewValueInt(int64(res)))
+		r := *self.pop()
+		l := *self.pop()
+
+		switch l.Kind() {
+		case value.IntValueKind:
+			res := math.Pow(float64(l.(value.ValueInt).Inner), float64(r.(value.ValueInt).Inner))
+			self.push(value.NewValueInt(int64(res)))
+		case value.FloatValueKind:
+			self.push(value.NewValueFloat(math.Pow(l.(value.ValueFloat).Inner, r.(value.ValueFloat).Inner)))
+		default:
+			panic("This value combination is unsupported")
+		}
 	case compiler.Opcode_Div:
 		r := *self.pop()
 		l := *self.pop()
